@@ -30,16 +30,16 @@ def S(name, **kw):
     return d
 
 
-def directed():
+def directed(quick=False):
     """(tag, options, steps, expected stale?)"""
     a = ("edit", ("add", "a.c", S("fa", hdr=True)))
     b = ("edit", ("add", "b.c", S("fb")))
     r1, r2 = ("run", 1), ("run", 2)
     out = []
-    for n in (1, 255, 256, 257, 512, 65536):
+    for n in ((1, 256, 257, 65536) if quick else (1, 255, 256, 257, 512, 65536)):
         out.append(("lineshift%d" % n, [], [a, b, r1, ("edit", ("lineshift", "a.c", n)), r1, r2]))
         out.append(("hdrlineshift%d" % n, [], [a, r1, ("edit", ("hdr_lineshift", n)), r1]))
-    for n in (1, 255, 256, 257):
+    for n in ((1, 256, 257) if quick else (1, 255, 256, 257)):
         out.append(("colshift%d" % n, [], [a, r1, ("edit", ("colshift", "a.c", n)), r2]))
     out.append(("comment", [], [a, r1, ("edit", ("comment", "a.c", "end")), r1, ("edit", ("comment", "a.c", "in")), r1,
                                 ("edit", ("comment", "a.c", "top")), r1, ("edit", ("hdr_comment",)), r2]))
@@ -49,6 +49,15 @@ def directed():
     out.append(("addremove", ["--enable=unusedFunction"], [a, r1, b, r1, ("edit", ("remove", "a.c")), r2, a, r1]))
     out.append(("rename", [], [a, r1, ("edit", ("rename", "a.c", "sub/a.c")), r1]))
     out.append(("hdrmove", [], [a, r1, ("edit", ("hdr_move",)), r1]))
+    il = HI.INLINE_OPTS
+    am = ("edit", ("add", "a.c", S("fa", supp="arrayIndexOutOfBound")))
+    out.append(("inlinesupp-fix-id", il, [am, r1, ("edit", ("supp", "a.c", "arrayIndexOutOfBounds")), r1, r2]))
+    out.append(("inlinesupp-remove", il, [am, b, r1, ("edit", ("supp", "a.c", None)), r1]))
+    out.append(("inlinesupp-break", il, [("edit", ("add", "a.c", S("fa", supp="arrayIndexOutOfBounds"))), r1, r1,
+                                         ("edit", ("supp", "a.c", "zerodiv")), r1, ("edit", ("supp", "a.c", "arrayIndexOutOfBound")), r2,
+                                         ("edit", ("supp", "a.c", "arrayIndexOutOfBounds")), r1]))
+    out.append(("inlinesupp-add", il, [("edit", ("add", "a.c", S("fa", hdr=True))), r1, ("edit", ("supp", "a.c", "arrayIndexOutOfBounds")), r1,
+                                       ("edit", ("tok", "a.c", "idx")), r1]))
     out.append(("staticfn", ["--enable=style,unusedFunction"], [("edit", ("add", "m.c", S("fm", sc=True))), r1, r1]))
     out.append(("suffixclash", ["--enable=unusedFunction"], [("edit", ("add", "io.c", S("fio"))), ("edit", ("add", "stdio.c", S("fstdio"))), r1, r1]))
     return out
@@ -74,6 +83,7 @@ def check(run, replay):
                          "cache decision was observed; files.txt/lookup: path lists over a small alphabet with shared suffixes; non-trivial = distinct list")
 
     vlib.ensure_repo_build()
+    model_ok = True
     try:
         kf, le = keyfields.generate(vlib.REPO, os.path.join(vlib.COQ, "theories", "Cache", "Gen_KeyFields.v"))
         run.extra["key_fields"] = kf
@@ -81,11 +91,23 @@ def check(run, replay):
     except keyfields.TranslateError as e:
         run.violation("translate:keyfields", "translator cannot read the key composition: %s" % e,
                       {"broken": "translator", "detail": str(e)}, found_input=False)
+        model_ok = False
+    if model_ok:
+        ok = run.prove(extra_targets=["theories/Cache/Run.vo"])
+        if not ok:
+            run.violation("proof:" + PID, "Properties_C18.vo does not build: " + str(run.proof_error())[:300],
+                          {"broken": "proof", "detail": run.proof_error()}, found_input=False)
+            model_ok = False
+    if not model_ok:
+        # search step without the model: the property itself (run with the build dir == run without it)
+        # on the same directed + seeded histories; the Gen_*.v / .vo of this run are not the code
+        run.notes.append("model tie off: histories replayed as plain cached-vs-fresh comparisons")
+        run.extra["model_tie"] = "off"
+        if not run.obligations:
+            run.obligations = vlib.theorems_of(os.path.join(vlib.COQ, "theories", "Properties_%s.v" % PID))
+            run.checker_cmd = "not run: the translator failed, the regenerated part of the model is not the code"
+        histories(run, None, None, quick, rng)
         return
-    ok = run.prove(extra_targets=["theories/Cache/Run.vo"])
-    if not ok:
-        run.violation("proof:" + PID, "Properties_C18.vo does not build: " + str(run.proof_error())[:300],
-                      {"broken": "proof", "detail": run.proof_error()}, found_input=False)
     if not os.path.exists(os.path.join(vlib.COQ, "theories/Cache/Run.vo")):
         return
     model = vlib.build_model(PID)
@@ -117,28 +139,49 @@ def check(run, replay):
         run.violation("tie:filestxt:" + vlib.enc_case(c)[:40], "model and analyzerinfo.cpp disagree on files.txt/lookup for %s" % vlib.show(c),
                       {"broken": "correspondence", "case": vlib.show(c), "model": vlib.show(m), "impl": vlib.show(i)}, found_input=False)
 
-    # ---- stream 3 + property: histories on the real binary
+    histories(run, T, version, quick, rng)
+
+
+def inline_suppressions(text):
+    """(id, line) of every `// cppcheck-suppress <id>` comment"""
+    import re
+    out = []
+    for n, l in enumerate(text.split("\n"), 1):
+        m = re.search(r"//\s*cppcheck-suppress\s+(\w+)", l)
+        if m:
+            out.append((m.group(1), n))
+    return out
+
+
+def histories(run, T, version, quick, rng):
+    """stream 3 + the property: directed and seeded histories on the real binary (T None: without the model tie)"""
     ti_cache = {}
     INCOPTS = HI.INC
-    d0 = T.vh_run("toolhash", [["", 0, 0, 0, 0, 0, "", 0, 0, 0, 1, "", "", "", 0, 0, 0, 0, "", "", "", "c", "", "", "a.c"]])[0]
-    defaults = {"platform": d0[2].decode(), "standards": d0[3].decode()} if len(d0) >= 4 else {}
-    run.extra["default_renderings"] = defaults
+    defaults = {}
+    if T is not None:
+        d0 = T.vh_run("toolhash", [["", 0, 0, 0, 0, 0, "", 0, 0, 0, 1, "", "", "", 0, 0, 0, 0, "", "", "", "c", "", "", "a.c"]])[0]
+        defaults = {"platform": d0[2].decode(), "standards": d0[3].decode()} if len(d0) >= 4 else {}
+        run.extra["default_renderings"] = defaults
 
     def ti_for(opts):
-        # toolinfo of these options for file f (the file path is streamed once the source does so)
-        def ti_fn(f):
-            key = (tuple(opts), f)
+        # toolinfo of these options for file f (the file path is streamed once the source does so);
+        # with --inline-suppr the inline suppressions of the file are part of the suppression dump
+        def ti_fn(f, sc):
+            sup = inline_suppressions(sc.read(f)) if "--inline-suppr" in opts else []
+            key = (tuple(opts), f, tuple(sup))
             if key not in ti_cache:
                 o = C.settings_of_cli(INCOPTS + list(opts), defaults, f)
                 o["render_filePath"] = f
+                o["suppdump"] = "  <suppressions>\n" + "".join(
+                    '    <suppression errorId="%s" fileName="%s" lineNumber="%d" inline="true" />\n' % (i, f, n) for i, n in sup) + "  </suppressions>\n"
                 r = T.model_run([["toolinfo"] + C.default_renderings(version, o)])[0]
                 ti_cache[key] = r[0] if r else b""
             return ti_cache[key]
         return ti_fn
-    hist = [(tag, opts, steps) for tag, opts, steps in directed()]
-    nh = 10 if quick else 150
+    hist = [(tag, opts, steps) for tag, opts, steps in directed(quick)]
+    nh = 7 if quick else 150
     for k in range(nh):
-        opts = rng.choice([[], ["--enable=unusedFunction"]])
+        opts = rng.choice([[], ["--enable=unusedFunction"], HI.INLINE_OPTS])
         hist.append(("h%d" % k, opts, HI.gen_history(rng, rng.randint(4, 9) if quick else rng.randint(6, 16), allow_clash=(k % 5 == 4))))
     seen = {}
     for tag, opts, steps in hist:
